@@ -183,6 +183,34 @@ SPECS["C14"] = {
     "assumptions": [],
 }
 
+PARSER = {"dir": "/repo/compiler/parser", "overlay": "parser"}
+
+SPECS["C16"] = {
+    "level": "model_checking",
+    "groups": [dict(LIBGO, entries=[
+        {"name": "VerifC16_Nesting", "quick": {"params": [0, 1, 4, 5, 6, 9, 10], "procs": 7}, "thorough": {"params": list(range(16)), "procs": 8, "flags": ["-par", "2"]},
+         "expect_reach": ["end", "value", "error", "added-later"]},
+    ])],
+    "level_text": "Bounded symbolic execution of the real middleware machinery (NewMethod, composeMiddleware, newInvocationHandler, Method.Invoke, Method.AddMiddleware, FServiceProvider.GetMiddleware) wired exactly as every generated constructor wires it (middleware = append(middleware, provider.GetMiddleware()...); NewMethod(target, target.method, name, middleware)), with a constructor middleware and b provider middleware (a,b <= 2; thorough <= 3), each one logging entry/exit and - under symbolic flags - rewriting the argument and/or the result with a symbolic suffix, the caller's variadic slice with or without spare capacity, optionally one AddMiddleware afterwards, target returning a value or an error: the target is invoked exactly once; every middleware is entered and left exactly once; entry order is [added later] provider[b-1..0] constructor[a-1..0], exit order the reverse; the target sees the argument with all rewrites applied outermost-first and the caller sees the result with all rewrites innermost-first; an error passes through. Outside: the generated constructors themselves (same statements, hand-written), publisher/subscriber wiring (FScopeProvider.GetMiddleware is the same copy), more than 3+3 middleware.",
+    "level_note": "Trusted: go/ssa, gose interpreter, z3; reflect is an engine boundary (ValueOf/Call/Interface/TypeOf/MethodByName implemented by the engine with Go's argument-assignability and zero-Value panics).",
+    "bounds": {"quick": "a,b <= 2 (7 of the 9 combinations)", "thorough": "a,b <= 3"},
+    "assumptions": [],
+}
+
+SPECS["C18"] = {
+    "level": "model_checking",
+    "groups": [dict(PARSER, entries=[
+        {"name": "VerifC18_Fields", "native": False, "quick": {"params": [0, 1, 2, 3, 4], "bound": 0, "procs": 5}, "thorough": {"params": list(range(20)), "bound": 0, "procs": 10, "timeout": 5000}, "expect_reach": ["end", "must-fail", "must-pass", "unspecified"]},
+        {"name": "VerifC18_FieldsNested", "native": False, "tiers": ["thorough"], "thorough": {"params": [0, 1, 2, 3, 4], "bound": 1, "procs": 5, "timeout": 5000}, "expect_reach": ["end", "must-fail", "must-pass"]},
+        {"name": "VerifC18_Services", "native": False, "quick": {"params": [0, 1], "bound": 0, "procs": 2, "flags": ["-par", "3"]}, "thorough": {"params": [0, 1], "bound": 0, "procs": 2, "flags": ["-par", "3"]}, "expect_reach": ["end", "must-fail", "must-pass", "unspecified"]},
+        {"name": "VerifC18_EnumsScopes", "native": False, "quick": {"params": [0, 1, 2], "bound": 0, "procs": 3, "flags": ["-par", "2"]}, "thorough": {"params": [0, 1, 2], "bound": 0, "procs": 3, "flags": ["-par", "2"]}, "expect_reach": ["end", "must-fail", "must-pass", "unspecified"]},
+    ])],
+    "level_text": "Bounded symbolic execution of the real Auditor.Audit (checkScopes, checkScopePrefix, normalizeScopePrefix, checkOperations, checkNamespaces, checkConstants, checkEnums, checkEnumValues, checkStructLike, checkServices, checkServiceMethods, checkFields, makeFieldsMap, checkType, Frugal.UnderlyingType) on PAIRS OF MODELS built by the harness (ParseFrugal is redirected; the text-level audit goes through the PEG parser and is outside): (1) field lists of a struct / exception / union / method arguments / throws clause with symbolic field ids (1..3), symbolic requiredness, presence of each field, type from {two scalars, a typedef whose meaning differs between old and new, a struct} (thorough: list/map nesting one level, and a second field on either side); (2) services: service kept/removed, method kept/removed, oneway flags, return types incl. void, extends in {none, Base, Other}, throws present/absent; (3) enums with symbolic value numbers, scopes with 6 prefixes x kept/removed operation x operation type, namespaces/constants. A three-valued reference oracle written from the statement decides MUST-FAIL (removed/retyped field, argument, method, operation, service, scope, struct; requiredness change; added required field; removed enum value; changed prefix modulo variable names; oneway change; changed or removed base; exception-set change on a void method) / MUST-PASS (identical, renames, added optional/default fields, renamed prefix variables, namespace/constant changes, additions) / UNSPECIFIED (removing an optional field, adding 'extends', removing a whole enum, exception-set change on a non-void method: counted, not asserted). Outside: audit of IDL text (parser), includes across files, deeper nesting.",
+    "level_note": "Trusted: go/ssa, gose interpreter, z3; fmt/reflect.DeepEqual are engine boundaries; ParseFrugal is redirected to the harness models, so counterexamples are confirmed by pinned concrete re-execution in the engine rather than natively. The oracle's classification of the unspecified edits is stated above and never raises an alarm.",
+    "bounds": {"quick": "one general field slot per side; scalar/typedef/struct types", "thorough": "two field slots per side; one container level"},
+    "assumptions": [],
+}
+
 OVERLAYS = {}
 
 HOOK_COMMITS = []
